@@ -44,7 +44,7 @@ def _seed():
 def run_shard(prop, tier, seed, shard, nshards, workdir, out, only=None):
     os.environ[runtime.GUARD] = "1"
     mod = load_prop(prop)
-    budget = getattr(mod, "BUDGET_S", {}).get(tier, 600)
+    budget = float(os.environ.get("VERIF_BUDGET_S") or getattr(mod, "BUDGET_S", {}).get(tier, 600))   # override: self-test of the truncation verdict only
     run = runtime.set_run(runtime.Run(prop, tier, seed, shard, nshards, workdir, deadline_s=budget))
     traced = mod.setup(run) or []
     trace.watch(traced)
@@ -121,7 +121,7 @@ def check(prop, tier, replay=None):
         nsh = 1
     else:
         nsh = getattr(mod, "SHARDS", {}).get(tier, min(16, os.cpu_count() or 4))
-    budget = getattr(mod, "BUDGET_S", {}).get(tier, 600)
+    budget = float(os.environ.get("VERIF_BUDGET_S") or getattr(mod, "BUDGET_S", {}).get(tier, 600))   # override: self-test of the truncation verdict only
     hashseeds = getattr(mod, "HASHSEEDS", None)
     procs = []
     for s in range(nsh):
@@ -206,6 +206,10 @@ def check(prop, tier, replay=None):
         inconclusive.append(f"{len(m['errors'])} monitor/harness error(s): " + m["errors"][0]["traceback"].strip().splitlines()[-1])
     if unmet:
         inconclusive.append("quota unmet: " + "; ".join(unmet))
+    if m["truncated"] and not replay:
+        # a shard ran into its wall-clock budget (loaded machine): the cases it skipped were not observed, so "held" would
+        # claim more than was seen -- inconclusive, never a violation and never a pass
+        inconclusive.append(f"workload truncated by the wall-clock budget ({budget} s per shard): not every planned case was run")
 
     # replay files
     rdir = os.path.join(os.environ.get("VERIF_EVIDENCE_DIR") if os.environ.get("VERIF_REPO") and os.environ.get("VERIF_EVIDENCE_DIR") else os.path.join(VERIF, "replays"), prop)
